@@ -401,6 +401,11 @@ def run_shard(ctx):
         if rng.random() < 0.15:
             form.settings["id_string"] = "other_id"
             form.settings.setdefault("form_id", "fid")
+            v = rng.randrange(4)
+            if v == 1:
+                form.settings["id_string"] = None  # both headers, one cell left blank: the headers are what the warning is about
+            elif v == 2:
+                form.settings = dict([("id_string", "other_id")] + [(k, x) for k, x in form.settings.items() if k != "id_string"])  # id_string column first
         if rng.random() < 0.2:
             form.extra_sheets[rng.choice(["setting", "Settings ", "entity", "entitis", "_setting", "sett", "choice"])] = (["a"], [["1"]])
         judge(ctx, form.to_sheets(), common.feature_sig(form), "rows", args=form.args)
